@@ -47,9 +47,11 @@ func NewBaseStore[E Entity](definition StoreDefinition[E]) *BaseStore[E] {
 		entityPath = append(entityPath, definition.EntityType)
 	}
 
-	indexPath := definition.BasePath
+	// a copy, like the entity path: the definition's slice is the caller's (who may use it for the next store), the
+	// parent's root path is the parent's, and the index bucket name is appended to it below
+	indexPath := append([]string{}, definition.BasePath...)
 	if definition.Parent != nil {
-		indexPath = definition.Parent.GetRootPath()
+		indexPath = append([]string{}, definition.Parent.GetRootPath()...)
 	}
 
 	result := &BaseStore[E]{
